@@ -42,11 +42,13 @@ pub struct Worker {
     /// lines the child printed before its first READY (mode runs)
     pub preamble: Vec<String>,
     pub limit: Duration,
+    /// extra environment of the child
+    pub env: Vec<(String, String)>,
 }
 
 impl Worker {
     pub fn new(mode: &str) -> Self {
-        Worker { mode: mode.into(), child: None, stdin: None, rx: None, respawns: 0, preamble: vec![], limit: Duration::from_secs(10) }
+        Worker { mode: mode.into(), child: None, stdin: None, rx: None, respawns: 0, preamble: vec![], limit: Duration::from_secs(10), env: vec![] }
     }
 
     pub fn alive(&self) -> bool { self.child.is_some() }
@@ -55,6 +57,7 @@ impl Worker {
         if self.child.is_some() { return false }
         let exe = std::env::current_exe().expect("current exe");
         let mut child = Command::new(exe).args(["codec", "--opt", &format!("child={}", self.mode)])
+            .envs(self.env.iter().cloned())
             .stdin(Stdio::piped()).stdout(Stdio::piped()).stderr(Stdio::null())
             .spawn().expect("spawn child");
         let out = child.stdout.take().unwrap();
